@@ -4,6 +4,8 @@ import MaltModel.Proofs.C04Passes
 import MaltModel.Proofs.C04Calls
 import MaltModel.Proofs.C04Sound
 import MaltModel.Conv.Directives
+import MaltModel.Conv.LoopTest
+import MaltModel.Proofs.C04MonoPasses
 namespace Malt.C04
 open Malt.Py Malt.Conv Malt.Conv.NoNative
 
@@ -388,5 +390,221 @@ def directiveBypass : Bool :=
   | .error _ => false
 
 theorem C04_directive_args_bypass_calltrees : directiveBypass = true := by decide
+
+/-! ## Completeness at full strength: `noNative (expression passes g) = true`
+
+`g` is the output of control_flow, **taken as given**: `ControlFlowOutputOk cfg g` says the checker finds in it
+nothing but native expression-level logic (`and`/`or`/`not`/`==`,`!=`/conditional expressions) — i.e. every
+statement is functionalised (jump passes + control_flow) and every call is routed (call_trees:
+`C04_calls_routed_partial`; the two exclusions there and in the pipeline order are the open findings
+`call_in_parameter_annotation` and `call_in_loop_directive_argument`).  `Supported g`: every BoolOp has ≥ 2 operands
+(what `ast.parse` guarantees; `visit_BoolOp` returns the single operand of a degenerate BoolOp unchanged).
+The passes are run in the EXTRACTED order (`LoopTest.exprSuffix`). -/
+
+def exprKinds : List String := ["BoolOp", "Not", "IfExp", "Compare"]
+
+def ControlFlowOutputOk (cfg : Cfg) (g : List Stmt) : Prop := ∀ o ∈ offenders cfg g, o.kind ∈ exprKinds
+
+/-- decidable form of `ControlFlowOutputOk` -/
+def controlFlowOutputOk (cfg : Cfg) (g : List Stmt) : Bool := (offenders cfg g).all fun o => exprKinds.contains o.kind
+
+def Supported (g : List Stmt) : Bool := !anyB (fun x => !goodBoolOp x) g
+
+structure PassEnv where
+  cfg : Cfg
+  reprOf : Nat → String
+  hasOrig : Nat → Bool
+
+/-- one step of `transform_ast` after control_flow, by its extracted name -/
+def runStep (env : PassEnv) : String → List Stmt → List Stmt
+  | "conditional_expressions", g => IfExp.visitB env.reprOf g
+  | "logical_expressions", g => Logical.visitB env.cfg.eqOn g
+  | "variables", g => Variables.visitB env.hasOrig g
+  | _, g => g
+
+def runSteps (env : PassEnv) : List String → List Stmt → List Stmt
+  | [], g => g
+  | s :: ss, g => runSteps env ss (runStep env s g)
+
+/-- the expression passes in the order extracted from `PyToPy.transform_ast` -/
+def exprPasses (env : PassEnv) (g : List Stmt) : List Stmt := runSteps env LoopTest.exprSuffix g
+
+/-- The extracted order: a re-ordering of `transform_ast` (e.g. seeded change `logical-before-control-flow`) makes
+this — and with it `C04_all_routed` — fail to build. -/
+theorem exprSuffix_extracted :
+    LoopTest.exprSuffix = ["conditional_expressions", "logical_expressions", "variables"] := by decide
+
+theorem exprPasses_eq (env : PassEnv) (g : List Stmt) :
+    exprPasses env g = Variables.visitB env.hasOrig (Logical.visitB env.cfg.eqOn (IfExp.visitB env.reprOf g)) := by
+  simp [exprPasses, exprSuffix_extracted, runSteps, runStep]
+
+private theorem kindPred_notGood : KindPred (fun x => !goodBoolOp x) where
+  ctx := by
+    intro ov e
+    cases e with
+    | seq i k es c => cases k <;> simp [adjustCtx, goodBoolOp]
+    | boolop i b vs => simp [adjustCtx, goodBoolOp, length_adjustCtxs]
+    | _ => simp [adjustCtx, goodBoolOp]
+  kids := by intro h e; simp [goodBoolOp_kids]
+  call := by intros; rfl
+  lambda := by intros; rfl
+  arguments := by intros; rfl
+  attr := by intros; rfl
+  name := by intros; rfl
+  const := by intros; rfl
+  none := rfl
+
+private theorem ifexpKeeps {p : Expr → Bool} (K : KindPred p) (r : Nat → String) : HooksFree (IfExp.hooks r) p p where
+  pre := by intro e res h; simp [IfExp.hooks] at h
+  post := by
+    intro e _ hb hk
+    show anyE _ (IfExp.post r (kidsE (IfExp.hooks r) e)) = false
+    have hpe : p (kidsE (IfExp.hooks r) e) = false := by
+      rw [K.kids]; simp only [anyE, orf] at hb; exact hb.1
+    generalize kidsE (IfExp.hooks r) e = e' at hk hpe
+    cases e'
+    case ifexp i t b e1 =>
+      simp only [IfExp.post]
+      simp only [anyKids, orf] at hk
+      exact rewrite_free K r i t b e1 (by simp only [anyE, hk.1.1.1, hk.1.1.2]; rfl)
+        (by simp only [anyE, hk.1.2.1, hk.1.2.2]; rfl) (by simp only [anyE, hk.2.1, hk.2.2]; rfl)
+    all_goals (simp [IfExp.post, anyE, hpe, hk])
+
+/-- **C04 completeness** for the expression passes in extracted order: on every supported tree that control_flow
+hands over in order, the checker that runs on the real `to_code` output accepts the result — no native
+`if`/`while`/`for`/`break`/`continue`/early `return`/`and`/`or`/`not`/conditional expression/`==`,`!=`/call is left,
+for every option set (`cfg`), every `expr_repr` table and every ORIG_DEFINITIONS table. -/
+theorem C04_all_routed (env : PassEnv) (g : List Stmt) (hs : Supported g = true)
+    (hg : ControlFlowOutputOk env.cfg g) : noNative env.cfg (exprPasses env g) = true := by
+  rw [exprPasses_eq]
+  have hwf : anyB (fun x => !goodBoolOp x) g = false := by simpa [Supported] using hs
+  -- well-formedness survives the conditional-expression pass, so the guarded logical hooks are the real ones
+  have hwf1 : anyB (fun x => !goodBoolOp x) (IfExp.visitB env.reprOf g) = false :=
+    mapB_free _ _ _ _ (ifexpKeeps kindPred_notGood env.reprOf) (SHooksFree.default _ _ _) g hwf
+  have hguard : Logical.visitB env.cfg.eqOn (IfExp.visitB env.reprOf g)
+      = mapB (guard (Logical.hooks env.cfg.eqOn) goodBoolOp) {} (IfExp.visitB env.reprOf g) :=
+    (mapB_guard (Logical.hooks env.cfg.eqOn) goodBoolOp (fun _ => rfl) (fun e => goodBoolOp_kids _ e) {} _ hwf1).symm
+  -- (1) no pass adds an offender
+  have m1 := offB_mapB (monoIfExp env.cfg env.reprOf) (monoSDefault env.cfg _) g [] (blockRoles g) false
+  have m2 := offB_mapB (monoLogical env.cfg) (monoSDefault env.cfg _) (IfExp.visitB env.reprOf g) [] (blockRoles g) false
+  have m3 := offB_mapB (monoVariables env.cfg env.hasOrig) (monoSVariables env.cfg env.hasOrig)
+    (Logical.visitB env.cfg.eqOn (IfExp.visitB env.reprOf g)) [] (blockRoles g) false
+  have r1 : blockRoles (IfExp.visitB env.reprOf g) = blockRoles g :=
+    blockRoles_mapB (monoIfExp env.cfg env.reprOf) (monoSDefault env.cfg _) g
+  have r2 : blockRoles (Logical.visitB env.cfg.eqOn (IfExp.visitB env.reprOf g)) = blockRoles g := by
+    rw [hguard, blockRoles_mapB (monoLogical env.cfg) (monoSDefault env.cfg _), r1]
+  have r3 : blockRoles (Variables.visitB env.hasOrig (Logical.visitB env.cfg.eqOn (IfExp.visitB env.reprOf g)))
+      = blockRoles g := by
+    rw [show Variables.visitB env.hasOrig _ = mapB (Variables.hooks env.hasOrig) (Variables.shooks env.hasOrig) _ from rfl,
+      blockRoles_mapB (monoVariables env.cfg env.hasOrig) (monoSVariables env.cfg env.hasOrig), r2]
+  -- (2) what is left can only be calls or statements
+  have k1 : anyB isIfExp (IfExp.visitB env.reprOf g) = false := C04_ifexp_routed env.reprOf g
+  have k2 : anyB (nativeExprKind env.cfg.eqOn) (Logical.visitB env.cfg.eqOn (IfExp.visitB env.reprOf g)) = false :=
+    mapB_free _ _ _ _ (logicalAllKinds env.cfg.eqOn) (SHooksFree.default _ _ _) _ k1
+  have k3 : anyB (nativeExprKind env.cfg.eqOn)
+      (Variables.visitB env.hasOrig (Logical.visitB env.cfg.eqOn (IfExp.visitB env.reprOf g))) = false :=
+    variables_keeps_free (kindPred_nativeExprKind env.cfg.eqOn) env.hasOrig _ k2
+  have hsc := offB_kinds env.cfg _ [] (blockRoles g) false k3
+  -- (3) but nothing of that kind was there
+  unfold noNative offenders
+  rw [r3]
+  rw [List.isEmpty_iff]
+  apply List.eq_nil_iff_forall_not_mem.mpr
+  intro o ho
+  have hk := hsc o ho
+  have ho2 : o ∈ offB env.cfg [] (blockRoles g) false (Logical.visitB env.cfg.eqOn (IfExp.visitB env.reprOf g)) := m3 ho
+  rw [hguard] at ho2
+  have ho1 := m1 (m2 ho2)
+  have he := hg o ho1
+  simp only [stmtOrCallKinds, exprKinds, List.mem_cons, List.mem_nil_iff, or_false] at hk he
+  rcases he with h | h | h | h <;> (rw [h] at hk; revert hk; decide)
+
+/-- decidable hypothesis, same theorem -/
+theorem C04_all_routed_dec (env : PassEnv) (g : List Stmt) (hs : Supported g = true)
+    (hg : controlFlowOutputOk env.cfg g = true) : noNative env.cfg (exprPasses env g) = true :=
+  C04_all_routed env g hs (by
+    intro o ho
+    have := List.all_eq_true.mp hg o ho
+    simpa using this)
+
+/-! ### non-vacuity, and every hypothesis is needed -/
+def demoEnv : PassEnv := { cfg := ⟨true, false⟩, reprOf := fun _ => "'t'", hasOrig := fun i => i != 0 }
+
+/-- control_flow-shaped input: `def if_body(): x = (a and not b) if c == d else 0` next to
+`ag__.if_stmt(not do_return, if_body, else_body, …)`, then `return fscope.ret(retval_, do_return)` in a FunctionScope -/
+def demoG : List Stmt :=
+  [.functionDef 1 "f" noArgs
+    [.with_ 0 [.withitem 0 (.call 0 (ag "FunctionScope") [.const 0 "str" "'f'"] []) [.name 0 "fscope" .store]]
+      [.functionDef 0 "if_body" noArgs
+          [.assign 2 [.name 3 "x" .store]
+            (.ifexp 4 (.compare 5 (.name 6 "c" .load) ["Eq"] [.name 7 "d" .load])
+              (.boolop 8 true [.name 9 "a" .load, .unary 10 "Not" (.name 11 "b" .load)]) (.const 12 "int" "0"))] [] [] false,
+       .expr 0 (.call 0 (ag "if_stmt") [.unary 0 "Not" (.name 0 "do_return" .load), .name 0 "if_body" .load,
+          .name 0 "if_body" .load] []),
+       .ret 0 [.call 0 (.attr 0 (.name 0 "fscope" .load) "ret" .load) [.name 0 "retval_" .load] []]] false]
+    [] [] false]
+
+example : Supported demoG = true := by decide
+example : controlFlowOutputOk demoEnv.cfg demoG = true := by decide
+example : noNative demoEnv.cfg demoG = false := by decide
+example : noNative demoEnv.cfg (exprPasses demoEnv demoG) = true :=
+  C04_all_routed_dec demoEnv demoG (by decide) (by decide)
+
+/-- **Exclusion 1** (`call_in_loop_directive_argument`): a native call inside the options argument of `ag__.for_stmt`
+(where control_flow re-emits directive arguments that bypassed call_trees).  Without `ControlFlowOutputOk` the
+statement is false: the expression passes do not route it. -/
+def loopOptsWitness : List Stmt :=
+  [.expr 1 (.call 0 (ag "for_stmt") [.name 0 "it" .load, noneConst, .name 0 "loop_body" .load,
+      .other 0 "Dict" ["1"] [.const 0 "str" "'maximum_iterations'", .call 2 (.name 3 "tr" .load) [.const 4 "int" "5"] []]] [])]
+
+theorem C04_all_routed_needs_directive_exclusion :
+    Supported loopOptsWitness = true ∧ controlFlowOutputOk demoEnv.cfg loopOptsWitness = false ∧
+    noNative demoEnv.cfg (exprPasses demoEnv loopOptsWitness) = false := by decide
+
+/-- **Exclusion 2** (`call_in_parameter_annotation`): `def g(p: h(1)): pass` as call_trees leaves it. -/
+theorem C04_all_routed_needs_annotation_exclusion :
+    Supported [paramAnnotationWitness] = true ∧ controlFlowOutputOk demoEnv.cfg [paramAnnotationWitness] = false ∧
+    noNative demoEnv.cfg (exprPasses demoEnv [paramAnnotationWitness]) = false := by decide
+
+/-- `Supported` is needed as well: a (non-parseable) one-operand BoolOp around an `ag__.if_stmt` call is replaced
+by its operand, which turns `b` into a body callback whose `return` is then early. -/
+def degenerateWitness : List Stmt :=
+  [.functionDef 1 "b" noArgs [.ret 2 []] [] [] false,
+   .expr 3 (.boolop 4 true [.call 0 (ag "if_stmt") [.name 0 "c" .load, .name 0 "b" .load, .name 0 "b" .load] []])]
+
+theorem C04_all_routed_needs_supported :
+    Supported degenerateWitness = false ∧ controlFlowOutputOk demoEnv.cfg degenerateWitness = true ∧
+    noNative demoEnv.cfg (exprPasses demoEnv degenerateWitness) = false := by decide
+
+/-! ### the order matters: the loop test carried in an annotation -/
+
+/-- `for i in it: …` after break lowering: the extra test `not break_` lives in the annotation (side field) -/
+def extraTestWitness : List Stmt :=
+  [.for_ 1 (.name 2 "i" .store) (.name 3 "it" .load) [.pass 4] [] [.unary 5 "Not" (.name 6 "break_" .load)] false]
+
+/-- the logical converter (like every `NodeTransformer`) does not see the annotation -/
+theorem logical_ignores_extra_test (eqOn : Bool) (i : Nat) (t it : Expr) (b e : List Stmt) (x : List Expr) (isA : Bool) :
+    Logical.visitS eqOn (.for_ i t it b e x isA)
+      = [.for_ i (Logical.visitE eqOn t) (Logical.visitE eqOn it) (Logical.visitB eqOn b) (Logical.visitB eqOn e) x isA] := by
+  rfl
+
+/-- extracted order (control_flow splices the annotation, THEN logical_expressions): the loop test is routed —
+for every tree, by `C04_logical_routed` -/
+theorem C04_extra_test_routed_in_extracted_order (eqOn : Bool) (g : List Stmt) :
+    anyB (nativeLogical eqOn) (Logical.visitB eqOn (LoopTest.spliceB g)) = false := C04_logical_routed eqOn _
+
+/-- swapped order (seeded change `logical-before-control-flow`): provably incomplete — the `not` of the loop test
+survives natively in `def extra_test(): return not break_` -/
+theorem C04_logical_before_control_flow_incomplete :
+    anyB isNot (LoopTest.spliceB (Logical.visitB false extraTestWitness)) = true ∧
+    anyB isNot (Logical.visitB false (LoopTest.spliceB extraTestWitness)) = false := by decide
+
+/-- and the extracted pipeline has them in the complete order -/
+theorem control_flow_precedes_expression_passes :
+    LoopTest.stepIndex "call_trees" < LoopTest.stepIndex "control_flow" ∧
+    LoopTest.stepIndex "control_flow" < LoopTest.stepIndex "conditional_expressions" ∧
+    LoopTest.stepIndex "conditional_expressions" < LoopTest.stepIndex "logical_expressions" ∧
+    LoopTest.stepIndex "logical_expressions" < LoopTest.stepIndex "variables" ∧
+    LoopTest.stepIndex "directives" < LoopTest.stepIndex "call_trees" := by decide
 
 end Malt.C04
